@@ -500,4 +500,83 @@ open Chokan.Skk in
 example : parseSkk (printSkk [12363] [107] [32] [⟨[26360], some [119, 114, 105, 116, 101]⟩, ⟨[25551], none⟩]) =
     some ⟨[12363], some [107], [[26360], [25551]]⟩ := by decide
 
+
+/-! ## each part of speech is converted on its own terms -/
+
+/-- the step of `noteToEntries`' fold -/
+def noteStep (hw : Str) (acc : CRes (List Entry)) (e : NoteEntry) : CRes (List Entry) :=
+  match acc with
+  | .ok l => (match entryToEntries e hw with
+    | .ok l2 => .ok (l ++ l2)
+    | .unsupported => .unsupported
+    | .panic => .panic)
+  | r => r
+
+theorem noteToEntries_eq (n : Note) : noteToEntries n = n.entries.foldl (noteStep n.headword) (.ok []) := rfl
+
+theorem noteFold_bad (hw : Str) : ∀ (es : List NoteEntry),
+    es.foldl (noteStep hw) (.unsupported : CRes (List Entry)) = .unsupported ∧ es.foldl (noteStep hw) (.panic : CRes (List Entry)) = .panic
+  | [] => ⟨rfl, rfl⟩
+  | _ :: t => by simp only [List.foldl_cons, noteStep]; exact noteFold_bad hw t
+
+theorem noteFold_acc (hw : Str) : ∀ (es : List NoteEntry) (a l : List Entry),
+    es.foldl (noteStep hw) (.ok []) = .ok l → es.foldl (noteStep hw) (.ok a) = .ok (a ++ l)
+  | [], a, l, h => by simp only [List.foldl_nil] at h ⊢; cases h; simp
+  | e :: t, a, l, h => by
+    simp only [List.foldl_cons, noteStep, List.nil_append] at h ⊢
+    cases he : entryToEntries e hw with
+    | ok l2 =>
+      rw [he] at h
+      simp only at h ⊢
+      -- the rest of the fold from `.ok l2`
+      cases hr : t.foldl (noteStep hw) (.ok []) with
+      | ok lr =>
+        have h2 := noteFold_acc hw t l2 lr hr
+        rw [h2] at h
+        cases h
+        rw [noteFold_acc hw t (a ++ l2) lr hr, List.append_assoc]
+      | unsupported =>
+        -- then the fold from any `.ok` accumulator is not `.ok` either: contradiction with `h`
+        exfalso
+        have : ∀ (b : List Entry), t.foldl (noteStep hw) (.ok b) ≠ .ok l := by
+          intro b hb
+          exact noteFold_notok hw t b l hb (by rw [hr]; intro l' h'; cases h')
+        exact this l2 h
+      | panic =>
+        exfalso
+        have : ∀ (b : List Entry), t.foldl (noteStep hw) (.ok b) ≠ .ok l := by
+          intro b hb
+          exact noteFold_notok hw t b l hb (by rw [hr]; intro l' h'; cases h')
+        exact this l2 h
+    | unsupported => rw [he] at h; simp only at h; rw [(noteFold_bad hw t).1] at h; cases h
+    | panic => rw [he] at h; simp only at h; rw [(noteFold_bad hw t).2] at h; cases h
+where
+  /-- if the fold from the empty accumulator fails, so it does from any accumulator -/
+  noteFold_notok (hw : Str) : ∀ (es : List NoteEntry) (b l : List Entry),
+      es.foldl (noteStep hw) (.ok b) = .ok l → (∀ l', es.foldl (noteStep hw) (.ok []) ≠ .ok l') → False
+    | [], b, l, _, hno => hno [] rfl
+    | e :: t, b, l, h, hno => by
+      simp only [List.foldl_cons, noteStep, List.nil_append] at h hno
+      cases he : entryToEntries e hw with
+      | ok l2 =>
+        rw [he] at h hno
+        simp only at h hno
+        exact noteFold_notok hw t (b ++ l2) l h (fun l' hl' => by
+          -- from `.ok []` the rest succeeds with some list; then so it does from `.ok l2`
+          exact hno (l2 ++ l') (noteFold_acc hw t l2 l' hl'))
+      | unsupported => rw [he] at h; simp only at h; rw [(noteFold_bad hw t).1] at h; cases h
+      | panic => rw [he] at h; simp only at h; rw [(noteFold_bad hw t).2] at h; cases h
+
+/-- **Each part of speech of a note is converted on its own terms**: the entries a note with the candidates `es₁ ++ es₂`
+emits are those of `es₁` followed by those of `es₂` — nothing computed for one candidate (its dictionary form, its okuri)
+carries over to another, also when they share a stem. -/
+theorem C18_notes_entrywise (hw ok : Str) (es1 es2 : List NoteEntry) (l1 l2 : List Entry)
+    (h1 : noteToEntries ⟨hw, ok, es1⟩ = .ok l1) (h2 : noteToEntries ⟨hw, ok, es2⟩ = .ok l2) :
+    noteToEntries ⟨hw, ok, es1 ++ es2⟩ = .ok (l1 ++ l2) := by
+  rw [noteToEntries_eq] at h1 h2 ⊢
+  simp only [List.foldl_append] at ⊢
+  simp only at h1 h2
+  rw [h1]
+  exact noteFold_acc hw es2 l1 l2 h2
+
 end Chokan.Props.C18
